@@ -6,6 +6,18 @@ Import ListNotations.
 
 Definition step_enabled (o : option lst) : bool := match o with Some _ => true | None => false end.
 
+(* the one region in which the faithful model falsifies "yields exactly what the function
+   returns": the callee returns (picklably) an object that is itself a SubprocessError *)
+Definition returns_envelope (b : beh) : bool :=
+  b_ret_err b && callee_reports b && match b_out b with COk => true | _ => false end.
+Definition is_cpe (f : pfinal) : bool :=
+  match f with FRaise (XCls c) => exn_eqb c ChildProcessErrorC | _ => false end.
+(* the outcome of the model when nothing kills the child from outside *)
+Definition model_final (b : beh) (f : pfinal) : bool :=
+  if returns_envelope b then match f with FRaise XRetAttr => true | _ => false end
+  else if callee_reports b then final_meets (demanded b) f
+  else is_cpe f.
+
 Section Facts.
   Variable P : list pop.
   Variable C : list cop.
@@ -40,15 +52,14 @@ Section Facts.
     Definition f_quiescent (s : lst) : bool := p_running s || negb (e_tx (p_ends (ps s))).
     (* F2: an unfinished invocation can always move *)
     Definition f_progress (s : lst) : bool := p_done s || parent_enabled s || c_running s.
-    (* F3: a finished invocation meets the specification *)
-    Definition f_done (s : lst) : bool := negb (p_done s) || spec_ok b s.
+    (* F3: a finished invocation meets the specification (outside the envelope region: there
+       it still exits cleanly) *)
+    Definition f_done (s : lst) : bool :=
+      negb (p_done s) || (if returns_envelope b then clean_exit s else spec_ok b s).
     (* F3': the exact outcome of the model when the child was not killed from outside *)
     Definition f_exact (s : lst) : bool :=
       match p_stat (ps s) with
-      | PSDone f =>
-          let cpe := match f with FRaise (XCls c) => exn_eqb c ChildProcessErrorC | _ => false end in
-          if c_killed (cs s) then final_meets (demanded b) f || cpe
-          else if callee_reports b then final_meets (demanded b) f else cpe
+      | PSDone f => model_final b f || (c_killed (cs s) && is_cpe f)
       | _ => true
       end.
     (* F4: the loop thread is never held blocked while the callee is still computing *)
@@ -70,19 +81,25 @@ Section Facts.
   (* ---- transfer along agreeing behaviours ------------------------------------------------ *)
   Lemma reports_ext : forall b b', beh_agree C b b' -> callee_reports b = callee_reports b'.
   Proof.
-    intros b b' (Ho & _ & Hp & _ & Hi). unfold callee_reports. rewrite Ho, Hp, (Hi ExceptionC); [reflexivity|].
-    right; now left.
+    intros b b' (Ho & _ & Hp & _ & _ & Hi). unfold callee_reports. rewrite Ho, Hp, (Hi ExceptionC); [reflexivity|].
+    apply nodup_In. right; now left.
   Qed.
   Lemma demanded_ext : forall b b', beh_agree C b b' -> demanded b = demanded b'.
   Proof.
     intros b b' Hag. unfold demanded. rewrite (reports_ext _ _ Hag).
-    destruct Hag as (Ho & _ & _ & _ & Hi). rewrite Ho, (Hi StopIterationC); [reflexivity | now left].
+    destruct Hag as (Ho & _ & _ & _ & _ & Hi). rewrite Ho, (Hi StopIterationC); [reflexivity | apply nodup_In; now left].
+  Qed.
+  Lemma envelope_ext : forall b b', beh_agree C b b' -> returns_envelope b = returns_envelope b'.
+  Proof.
+    intros b b' Hag. unfold returns_envelope. rewrite (reports_ext _ _ Hag).
+    destruct Hag as (Ho & _ & _ & _ & Hr & _). now rewrite Ho, Hr.
   Qed.
   Lemma f_all_ext : forall b b' s, beh_agree C b b' -> f_all b s = f_all b' s.
   Proof.
     intros b b' s Hag. unfold f_all, f_progress, f_done, f_exact, f_nonblocking, f_child_free, sync_blocked,
-      parent_enabled, spec_ok, outcome_ok.
-    rewrite (demanded_ext _ _ Hag), (reports_ext _ _ Hag), !(lstep_ext P C b b' 0 _ s Hag). reflexivity.
+      parent_enabled, spec_ok, outcome_ok, model_final.
+    rewrite (demanded_ext _ _ Hag), (reports_ext _ _ Hag), (envelope_ext _ _ Hag), !(lstep_ext P C b b' 0 _ s Hag).
+    reflexivity.
   Qed.
 
   (* the kernel must unfold these wrappers first: otherwise conversion starts evaluating the
@@ -135,9 +152,16 @@ Section Facts.
     intros b s Hr Hc. facts b s Hr. unfold f_child_free in H0. rewrite Hc in H0. exact H0.
   Qed.
 
-  Lemma done_spec : forall b s, lreach P C b s -> p_done s = true -> spec_ok b s = true.
+  Lemma done_spec : forall b s, lreach P C b s -> p_done s = true -> returns_envelope b = false -> spec_ok b s = true.
   Proof.
-    intros b s Hr Hd. facts b s Hr. unfold f_done in H3. rewrite Hd in H3. exact H3.
+    intros b s Hr Hd He. facts b s Hr. unfold f_done in H3. rewrite Hd, He in H3. exact H3.
+  Qed.
+
+  Lemma done_clean : forall b s, lreach P C b s -> p_done s = true -> clean_exit s = true.
+  Proof.
+    intros b s Hr Hd. facts b s Hr. unfold f_done in H3. rewrite Hd in H3. cbn [negb orb] in H3.
+    destruct (returns_envelope b); [exact H3|]. unfold spec_ok in H3.
+    destruct (p_stat (ps s)); try discriminate. now apply andb_true_iff in H3.
   Qed.
 
   Lemma done_exact : forall b s, lreach P C b s -> f_exact b s = true.
@@ -152,12 +176,11 @@ Section Facts.
   (* never blocked forever: the distinguished outcome is unreachable *)
   Lemma never_blocked_forever : forall b s, lreach P C b s -> l_blocked_forever P C b s = false.
   Proof.
-    intros b s Hr. unfold l_blocked_forever. destruct (p_done s) eqn:Hd; [reflexivity|]. cbn.
-    apply negb_false_iff. unfold l_enabled, lchoices. cbn [existsb].
+    intros b s Hr. unfold l_blocked_forever. destruct (p_done s) eqn:Hd; [reflexivity|]. cbn [negb andb].
+    apply negb_false_iff. unfold l_enabled. apply existsb_exists.
     destruct (progress b s Hr Hd) as [Hp | Hc].
-    - unfold parent_enabled, step_enabled in Hp. destruct (lstep P C b 0 LParent s); [reflexivity | discriminate].
-    - pose proof (child_free b s Hr Hc) as Hf. unfold step_enabled in Hf.
-      destruct (lstep P C b 0 LChild s); [now rewrite orb_true_r | discriminate].
+    - exists LParent. split; [cbn; auto | exact Hp].
+    - exists LChild. split; [cbn; auto | exact (child_free b s Hr Hc)].
   Qed.
 
   (* from every reachable state the invocation can be driven to its end, in at most
